@@ -48,7 +48,7 @@ Fetch ==
 
 Printed ==
     /\ More /\ E.e = "print" /\ pc < Len(m.pr)
-    /\ E.text = m.pr[pc + 1].text /\ (m.pr[pc + 1].kind # "" => E.kind \in {m.pr[pc + 1].kind, "Optional<" \o m.pr[pc + 1].kind \o ">"})   \* the machine's optionals are flat
+    /\ (m.pr[pc + 1].any \/ E.text = m.pr[pc + 1].text) /\ (m.pr[pc + 1].kind # "" => E.kind \in {m.pr[pc + 1].kind, "Optional<" \o m.pr[pc + 1].kind \o ">"})   \* the machine's optionals are flat
     /\ pc' = pc + 1 /\ l' = l + 1 /\ UNCHANGED <<t, m>>
 
 TraceNext == Fetch \/ Printed
